@@ -187,7 +187,11 @@ func c15E2EFetch(s *verifh.Session, r *rand.Rand, c *Client, base string, how st
 	if g.small {
 		mode = "bytes"
 	}
-	human := fmt.Sprintf("%s %s charset=%s site=%s settings=%s ct=%q len=%d segs=%d gzip=%v", how, mode, g.cs.label, g.site, st.kind, ct, len(b.body), len(g.ec.segs), g.ec.gzip)
+	stName := st.kind
+	if stName == "prog" {
+		stName = "prog[" + c15ProgHuman(st.prog, st.use) + "]"
+	}
+	human := fmt.Sprintf("%s %s charset=%s site=%s settings=%s ct=%q len=%d segs=%d gzip=%v", how, mode, g.cs.label, g.site, stName, ct, len(b.body), len(g.ec.segs), g.ec.gzip)
 	id := fmt.Sprintf("e2e/%s/%s/%s/%s/%s/%d", g.id, how, g.cs.label, g.site, st.kind, len(b.body))
 	s.Begin(id, human)
 	var got []byte
